@@ -98,7 +98,7 @@ def _write_and_read(recs, blocked, api, real, tid):
 
 
 def run(rep, wd, tier, seed):
-    rep.assumptions += ['TLC 1.8 evaluates the TLA+ text correctly', 'file objects are io.BytesIO',
+    rep.assumptions += ['TLC 1.8 evaluates the TLA+ text correctly', 'file objects: in-memory buffers, real files, pipes-like streams, gzip file objects (harness/drv.py)',
                         'MAX_VBS_RECORD_LENGTH read from config.py at run time: %d' % drv.max_vbs_len()]
     vbsc.model_check(rep, wd, tier, invariants=('LayoutInv', 'ReadBackInv'), props=())
     maxlen = drv.max_vbs_len()
